@@ -42,6 +42,41 @@ class HookCrash(BaseException):
     """Raised from inside a custom-type hook: aborts the outer operation part-way."""
 
 
+_ADDR = __import__("re").compile(r"0x[0-9a-fA-F]{6,}")
+
+
+def raise_outcome(e):
+    """What a raising operation 'returned': the exception type *and* its message (addresses masked).  A
+    message that grows or changes with what ran before is a result that depends on history."""
+    try:
+        msg = _ADDR.sub("0x?", str(e))[:400]
+    except Exception as e2:
+        msg = "<str() raised %s>" % type(e2).__name__
+    return ("raise", type(e).__name__, msg)
+
+
+def reorder_sets(v):
+    """An equal value in which every set / frozenset was filled in the opposite insertion order (CPython
+    iterates colliding elements in insertion order: {0, 8} and {8, 0} are equal and iterate differently).
+    None when the value holds no set."""
+    found = [False]
+
+    def go(x):
+        t = type(x)
+        if t in (set, frozenset):
+            found[0] = True
+            return t(reversed(list(x)))
+        if t is list:
+            return [go(y) for y in x]
+        if t is tuple:
+            return tuple(go(y) for y in x)
+        if t is dict:
+            return {k: go(y) for k, y in x.items()}
+        return x
+    out = go(v)
+    return out if found[0] else None
+
+
 class HookController:
     def __init__(self):
         self.armed = None
@@ -157,6 +192,36 @@ def contains_hooked(schema, depth=0):
     except Exception:
         pass
     return "hooked(" in _safe(lambda: repr(schema))
+
+
+def asks_for_huge_value(schema, depth=0):
+    """Does generating from this schema mean allocating a list / str / bytes of > 100 000 members?"""
+    from niltype import Nil
+    if depth > 12 or not hasattr(schema, "props"):
+        return False
+    p = schema.props
+    for n in ("len", "min_len"):
+        try:
+            x = p.get(n)
+        except Exception:
+            x = Nil
+        if isinstance(x, int) and not isinstance(x, bool) and x > 100000:
+            return True
+    for n in ("type", "inner"):
+        x = p.get(n)
+        if x is not Nil and asks_for_huge_value(x, depth + 1):
+            return True
+    for n in ("elements", "types"):
+        x = p.get(n)
+        if x is not Nil and isinstance(x, (list, tuple)) and any(asks_for_huge_value(y, depth + 1) for y in x):
+            return True
+    x = p.get("keys")
+    if x is not Nil and isinstance(x, dict):
+        for v in x.values():
+            y = v[0] if isinstance(v, tuple) else v
+            if asks_for_huge_value(y, depth + 1):
+                return True
+    return False
 
 
 def snap(v):
@@ -465,6 +530,10 @@ class Machine:
             return ("ok", bool(self.sch(op["a"]) == self.sch(op["b"])))
         if k == "fake":
             s = self.sch(op["s"])
+            if asks_for_huge_value(s):
+                # e.g. schema.list(schema.none).len(2**63): generating is a question of memory, not of
+                # purity, and how far it gets before MemoryError depends on the machine
+                raise MissingOperand("huge")
             sched = Schedule.from_json(op["schedule"])
             P.world.begin(sched, derive("c07", sched.seed))
             g = P.fake(s) if op["how"] == "fake" else ~s
@@ -564,7 +633,7 @@ class Machine:
         except MemoryError:
             outcome = ("raise", "MemoryError")
         except Exception as e:
-            outcome = ("raise", type(e).__name__)
+            outcome = raise_outcome(e)
         for c, role, vid, sn in self._pending_retained:
             self.retain(c, role, vid, sn)
         for e in self._deferred:
@@ -593,7 +662,7 @@ class Machine:
             except (DrawCapExceeded, RecursionError):
                 out2 = None
             except Exception as e:
-                out2 = ("raise", type(e).__name__)
+                out2 = raise_outcome(e)
             self.schemas = before
             self._pending_retained = keep
             if out2 is not None:
@@ -602,6 +671,33 @@ class Machine:
                     raise Violation("I3:depends_on_object_identity", op["op"], op.get("how", ""),
                                     "%s on the referenced container gave %s, on an equal fresh copy %s" % (
                                         describe(op), str(outcome)[:120], str(out2)[:120]), sorted(self.fault_tags))
+        # equal inputs: the same value with its sets filled in the opposite order (message text aside:
+        # Python itself prints equal sets differently)
+        if outcome[0] in ("ok", "raise") and not hook and op["op"] in ("from_native", "substitute") \
+                and isinstance(op.get("v"), dict) and "new" in op["v"]:
+            other = reorder_sets(dec(op["v"]["new"]))
+            if other is not None:
+                rop = dict(op)
+                rop["out"] = "so%d" % self.step
+                rop["vout"] = None
+                rop["v"] = {"lit": other}
+                before = dict(self.schemas)
+                keep = self._pending_retained
+                self._pending_retained = []
+                try:
+                    out2 = self.run_op(rop)
+                except (MissingOperand, DrawCapExceeded, RecursionError):
+                    out2 = None
+                except Exception as e:
+                    out2 = raise_outcome(e)
+                self.schemas = before
+                self._pending_retained = keep
+                if out2 is not None:
+                    P.probes["set_order_independence_checked"] += 1
+                    if out2[:2] != outcome[:2]:
+                        raise Violation("I3:depends_on_set_insertion_order", op["op"], op.get("how", ""),
+                                        "%s gave %s, with the sets of the value filled in the opposite order %s" % (
+                                            describe(op), str(outcome)[:120], str(out2)[:120]), sorted(self.fault_tags))
         P.probes["op:%s:%s" % (op["op"], outcome[0])] += 1
         if outcome[0] == "raise":
             P.probes["raised_in:%s" % op["op"]] += 1
@@ -660,7 +756,7 @@ class Machine:
                 except RecursionError:
                     out1 = ("skip", "recursion")
                 except Exception as e:
-                    out1 = ("raise", type(e).__name__)
+                    out1 = raise_outcome(e)
                 # the scratch result must not stay in the pool
                 self.schemas = before
                 self._pending_retained = []
@@ -750,7 +846,8 @@ class OpGen:
                 return r.choice((d, [d], {"k": d}))
             return OrderedDict(base)
         return copy.deepcopy(r.choice(([1, ...], {"a": ...}, [..., 1], {"k": {...: 1}}, [{...: 1}], {"a": [1, {...: 2}]}, {...: ...}, {"a": [1, 2], "b": {"c": None}}, [[1, 2], [3]], [{"a": 1}, {"a": 2}],
-                                       (1, 2), ("a",), {"a", "b"}, frozenset((1, 2)), bytearray(b"ab"), [(1, 2), {"k": (3,)}])))
+                                       (1, 2), ("a",), {"a", "b"}, frozenset((1, 2)), bytearray(b"ab"), [(1, 2), {"k": (3,)}],
+                                       {0, 8}, frozenset((16, 0, 8)), {"ids": {8, 0}}, [frozenset((0, 32))], {"a": 1, "tags": {"x", "y"}})))
 
     def vspec(self, e):
         r = self.r
@@ -863,6 +960,15 @@ class OpGen:
                     cands.append(["precision", r.choice((1, 2, 5))])
                 if not (has("value") or has("min") or has("max")):
                     cands.append(["__call__", enc(conv(r.randint(-9, 9)))])
+                if kind == "IntSchema" and r.random() < 0.3:
+                    # bool is an int: True / False are legal int arguments
+                    fits = lambda b: (val is Nil or val == b) and (lo is Nil or lo <= b) and (hi is Nil or hi >= b)   # noqa: E731
+                    if not has("min") and (val is Nil or val >= 0) and (hi is Nil or hi >= 0):
+                        cands.append(["min", False])
+                    if not has("max") and (val is Nil or val <= 1) and (lo is Nil or lo <= 1):
+                        cands.append(["max", True])
+                    if not has("value") and fits(1):
+                        cands.append(["__call__", True])
             elif kind == "StrSchema":
                 val = p.get("value")
                 if not has("pattern"):
@@ -1168,7 +1274,30 @@ class Prop(BaseProp):
         return k
 
     def run_history(self, case):
-        """-> (machine, violation_exc | None, failing_op)"""
+        """-> (machine, violation_exc | None, failing_op).  A history that ends without a violation is
+        executed a second time from scratch in the same interpreter (new machine, new schemas, the same
+        operations): 'repeating an operation on equal inputs gives equal results regardless of what was
+        executed in between' -- here everything the first pass did lies in between."""
+        m, v, op = self.run_pass(case)
+        if v is not None or not case.get("rerun", True):
+            return m, v, op
+        m2, v2, op2 = self.run_pass(case)
+        self.probes["history_rerun_in_same_process"] += 1
+        if v2 is not None:
+            v2.detail = "only in the second pass over the same history in one interpreter: " + v2.detail
+            return m2, v2, op2
+        for i, (a, b) in enumerate(zip(m.outcomes, m2.outcomes)):
+            if a != b:
+                o = m2.oplog[i]
+                vv = Violation("I3:history_not_repeatable_in_process", o["op"], o.get("how", o.get("kind", "")),
+                               "op #%d %s gave %s in the first pass over this history and %s in the second pass (same interpreter, fresh machine)" % (
+                                   i, describe(o), str(a)[:160], str(b)[:160]), sorted(m2.fault_tags))
+                m2.oplog = m2.oplog[:i + 1]
+                m2.outcomes = m2.outcomes[:i + 1]
+                return m2, vv, o
+        return m, None, None
+
+    def run_pass(self, case):
         m = Machine(self)
         CTL.disarm()
         for sid, spec, w in CANARIES:
@@ -1221,8 +1350,11 @@ class Prop(BaseProp):
         import json as _json
         text = _json.dumps(m.oplog, default=str)
         hs_sensitive = ("[^" in text) or ("$set" in text) or ("$frozenset" in text) or ("class_neg" in text) or ('"neg": true' in text)
+        # across hash seeds exception *messages* are left out: they print whatever value was refused, and
+        # Python prints equal sets in hash order
+        d_hs = fast_digest([o[:2] if o[0] == "raise" else o for o in m.outcomes])
         return {"executions": max(1, len(m.oplog)), "violations": violations, "keys": keys,
-                "digest": d, "digest_hs": None if hs_sensitive else d, "sample": sample}
+                "digest": d, "digest_hs": None if hs_sensitive else d_hs, "sample": sample}
 
     # ------------------------------------------------------------ shrink / replay
     def check_single(self, case, schedule_json, sig_id, kf="__any__"):
